@@ -358,21 +358,10 @@ pub fn expect_sets(buf: &[u8], pkt: &MPkt) -> Vec<ExpSet> {
             }
             (MSetKind::Data { recs, pad, def, .. }, Proto::V9) => {
                 let all: Option<Vec<Vec<FVal>>> = recs.iter().map(rec_vals).collect();
-                // a protocol byte 146..=254 cannot be held by the library's ProtocolTypes
-                let bad = recs.iter().position(|r| {
-                    r.fields.iter().any(|f| f.dt == Dt::ProtoT && (146..=254).contains(&f.raw[0]))
-                });
-                match (all, bad) {
-                    (Some(a), None) => e.correct = Some(FSet::V9Data { recs: a, pad: pad.clone() }),
-                    (Some(a), Some(k)) => {
-                        let size: usize = def.all_fields().iter().map(|f| usize::from(f.len)).sum();
-                        e.defective.push((
-                            "KF-C04-protocol-146-254".into(),
-                            FSet::V9Data { recs: a[..k].to_vec(), pad: body[k * size..].to_vec() },
-                        ));
-                    }
-                    _ => {}
+                if let Some(a) = all {
+                    e.correct = Some(FSet::V9Data { recs: a, pad: pad.clone() });
                 }
+                let _ = def;
             }
             (MSetKind::V9OData { recs, pad, .. }, _) => {
                 let (sc, op) = &recs[0];
